@@ -1,6 +1,7 @@
 --------------------------- MODULE MC_OrganizePhases ---------------------------
 (* model-checking companion of OrganizePhases.tla (constants that a cfg cannot write) *)
 EXTENDS OrganizePhases
+Sp2 == {2}
 Sp3 == {3}
 Sp4 == {4}
 Sp012 == {0, 1, 2}
